@@ -11,7 +11,7 @@ chains gen_chain_prog, plain programs) DECORATED with the constructs of the Reso
 Items (structured; text for the implementation and a line for ocaml/asm2_driver are both rendered from them):
   ('label', name, level) | ('const', name, expr, level) | ('instr', rule_index, [arg texts]) |
   ('data', width or None, [exprs]) | ('res', expr) | ('align', expr) | ('addr', expr) |
-  ('bankdef', name, fields) | ('bank', name)          fields: dict over bits,labelalign,addr,size,addr_end,outp (expr text) + fill (bool)
+  ('bankdef', name, fields) | ('bank', name) | ('assert', condition)          fields: dict over bits,labelalign,addr,size,addr_end,outp (expr text) + fill (bool)
 """
 import re
 import vlib, asm_gen
@@ -50,6 +50,8 @@ class Prog2(asm_gen.Prog):
                 out.append('#bankdef %s { %s }' % (it[1], ', '.join(parts)))
             elif k == 'bank':
                 out.append('#bank ' + it[1])
+            elif k == 'assert':
+                out.append('#assert ' + it[1])
         return out
 
     def text(self, style=None, rng=None, rename=None, order=None, blocks=1):
@@ -79,6 +81,8 @@ class Prog2(asm_gen.Prog):
                                              '1' if f.get('fill') else '0'))
             elif k == 'bank':
                 nodes.append('K:' + vlib.hx(it[1]))
+            elif k == 'assert':
+                nodes.append('T:' + vlib.hx(it[1]))
         return '\t'.join([str(budget), '1' if indexed else '0', vlib.hx(self.isa.text()), ';'.join(nodes)])
 
     def stats(self):
@@ -291,6 +295,23 @@ def decorate(rng, base, gentle=False):
             out.append((k, it[1], texts))
         else:
             out.append(it)
+    if rng.chance(0.03 if gentle else 0.12):
+        # #assert directives over the program's own symbols (mostly true; the program then always runs to its last pass)
+        labs = [it[1] for it in out if it[0] == 'label' and it[2] == 0]
+        for _ in range(rng.range(1, 2)):
+            k = rng.below(100)
+            if labs and k < 45:
+                cond = '%s - %s < 0x10000' % (rng.choice(labs), rng.choice(labs))
+            elif labs and k < 65:
+                cond = '%s == %s' % ((rng.choice(labs),) * 2)
+            elif k < 80:
+                cond = '$ != 0x7777'
+            elif declared and k < 92:
+                d = '.'.join(rng.choice(declared))
+                cond = '%s == %s' % (d, d)
+            else:
+                cond = rng.choice(['1 == 2', '$ == 0x7777', '5'])       # false / not a boolean: rejected
+            out.insert(rng.range(0, len(out)), ('assert', cond))
     p.items = out
     p.names = list(p.names) + LOCALS
     return p
@@ -385,6 +406,7 @@ def gen_edge_prog(rng):
 def gen_assert_prog(rng):
     """directed family for /repo b4e61a4 (F77): constants whose value is an assertion that depends on addresses, labels
     (forward and backward) and banks -- `k = assert($ > N)`, `k = assert(l < N)`, `k = { assert(l1 - l0 == N), v }` --
+    and `#assert` DIRECTIVES over the same conditions and over such constants (`#assert k0 == l1 + 1`)
     global and nested (`.k`), used by data or unused, in 0-2 banks with bank switches; N sits around the real value so
     that both outcomes occur.  A failed assertion in a constant is an error on the final pass only; guessing passes keep
     the failed value."""
@@ -406,7 +428,7 @@ def gen_assert_prog(rng):
     if not banks:
         banks.append([None, 8, 0, 0])
     cur = len(banks) - 1
-    labels = ['l%d' % i for i in range(rng.range(1, 4))]
+    labels = ['l%d' % i for i in range(rng.range(1, 4) if rng.chance(0.85) else 0)]     # label-free: the F70 class at budget 1
     # decide where each label will be: simulate the layout first
     plan = []
     nitems = rng.range(4, 10)
@@ -446,6 +468,7 @@ def gen_assert_prog(rng):
     nk = 0
     c = cur
     ctx_parent = None
+    valued_consts = []
     names = list(labels)
     for e, addr in zip(plan, here):
         b = banks[c]
@@ -459,8 +482,10 @@ def gen_assert_prog(rng):
         elif e[0] == 'data':
             it.append(('data', w, [str(rng.below(200)) for _ in range(e[1])]))
         else:
-            form = rng.below(100)
-            l = rng.choice(labels)
+            form = rng.below(100) if labels else 0
+            l = rng.choice(labels) if labels else '$'
+            if not labels:
+                laddr['$'] = addr
             if form < 30:
                 lhs, val = '$', addr
             elif form < 65:
@@ -477,8 +502,18 @@ def gen_assert_prog(rng):
             cond = '%s %s %d' % (lhs, op, n)
             if rng.chance(0.25):
                 cond = '(%s) || (%s == %d)' % (cond, l, near(laddr[l]))
+            if rng.chance(0.5):
+                # the #assert DIRECTIVE (resolver/assert.rs): decided on the last pass only
+                if rng.chance(0.04):
+                    cond = rng.choice([l, '5', '$', 'undefined_sym == 1', l + ' + 1'])      # not a boolean / unresolvable: rejected
+                elif valued_consts and rng.chance(0.25):
+                    vn, vv = rng.choice(valued_consts)
+                    cond = '%s %s %s' % (vn, rng.choice(['==', '==', '!=', '>=']), vv)
+                it.append(('assert', cond))
+                continue
             valued = rng.chance(0.5)
-            expr = ('{ assert(%s), %s }' % (cond, rng.choice(['7', l, '$', l + ' + 1']))) if valued else 'assert(%s)' % cond
+            vexpr = rng.choice(['7', l, '$', l + ' + 1'])
+            expr = ('{ assert(%s), %s }' % (cond, vexpr)) if valued else 'assert(%s)' % cond
             lvl = 1 if ctx_parent and rng.chance(0.35) else 0
             name = ('k%d' % nk) if lvl == 0 else rng.choice(['k', 'chk', 'a%d' % nk])
             full = name if lvl == 0 else None
@@ -487,6 +522,11 @@ def gen_assert_prog(rng):
             names.append(name)
             if lvl == 0:
                 ctx_parent = name
+            if valued:
+                # referable later by an #assert directive: global name, or dotted path through the parent
+                vval = {'7': '7', l: l, '$': str(addr), l + ' + 1': l + ' + 1'}[vexpr]
+                if lvl == 0:
+                    valued_consts.append((name, vval))
             if valued and rng.chance(0.6):
                 # a consumer (wide enough for any address of the family)
                 ref = name if lvl == 0 else '.' + name
